@@ -25,7 +25,7 @@ private def sample : Params :=
     mulhighBasecase := 10, mulhighDc := 27, mulmidToom42 := 36, dcDivQr := 30, invDivQr := 2089, dcDivQ := 44, invDivQ := 1470,
     dcBdivQr := 36, dcBdivQ := 44, binvNewton := 57, redc1ToRedc2 := 28, redc2ToRedcN := 0, redc1ToRedcN := 100,
     hgcd := 75, hgcdAppr := 50, mod11 := 6, mod12 := 8, mod13 := 19, getStrDc := 13, getStrPrecompute := 22,
-    setStrDc := 890, setStrPrecompute := 2093 }
+    setStrDc := 890, setStrPrecompute := 2093, divremHenselQr1 := 996, rshDivremHenselQr1 := 5 }
 
 -- non-vacuity: `Valid` accepts a real table …
 example : Valid Gen.minSizes sample := by decide +kernel
@@ -38,6 +38,8 @@ example : ¬ Valid Gen.minSizes { sample with redc1ToRedc2 := 0 } := by decide +
 example : ¬ Valid Gen.minSizes { sample with mulKaratsuba := 8 } := by decide +kernel
 -- GET_STR_DC_THRESHOLD above GET_STR_PRECOMPUTE_THRESHOLD overruns mpn_sb_get_str's stack buffers
 example : ¬ Valid Gen.minSizes { sample with getStrDc := 40 } := by decide +kernel
+-- RSH_DIVREM_HENSEL_QR_1_THRESHOLD = 2 would run the assembly mpn_rsh_divrem_hensel_qr_1_2 at n = 2, where it faults
+example : ¬ Valid Gen.minSizes { sample with rshDivremHenselQr1 := 2 } := by decide +kernel
 -- a "never" Toom-3 threshold overflows 2*MUL_TOOM3_THRESHOLD in mpn_mul
 example : ¬ Valid Gen.minSizes { sample with mulToom3 := never } := by decide +kernel
 
